@@ -102,6 +102,7 @@ func cmdCheck(args []string) int {
 	var known []knownFinding
 	loadJSON(filepath.Join(verifRoot, "known_findings.json"), &known)
 
+	defer closeNativeSessions()
 	start := time.Now()
 	outDir := filepath.Join(verifRoot, "out", id)
 	os.RemoveAll(outDir)
@@ -133,11 +134,13 @@ func cmdCheck(args []string) int {
 		hdir := filepath.Join(verifRoot, job.Harness)
 		cfg := runConfig{Pkg: job.Pkg, HarnessDir: hdir, TimeoutMs: tmo, Seed: seed, Solver: "z3"}
 		b := time.Duration(*budget) * time.Second
+		pool := newPool(cfg, *workers)
+		defer pool.close()
 		for _, fn := range funcs {
 			if onlyRe != nil && !onlyRe.MatchString(fn) {
 				continue
 			}
-			res, err := parallelExplore(cfg, fn, *workers, b)
+			res, err := pool.explore(fn, b)
 			if err != nil {
 				problems = append(problems, fmt.Sprintf("%s: %v", fn, err))
 				continue
@@ -568,8 +571,12 @@ package %s
 
 import (
 	"fmt"
+	"os"
 	"testing"
 )
+
+var vHarnesses = map[string]func(){
+%s}
 
 func TestVerifReplay(t *testing.T) {
 	defer func() {
@@ -580,32 +587,64 @@ func TestVerifReplay(t *testing.T) {
 			fmt.Println("REPLAY-PANIC", r)
 		}
 	}()
-	%s()
+	f := vHarnesses[os.Getenv("GOSMT_FUNC")]
+	if f == nil {
+		fmt.Println("REPLAY-UNSUPPORTED no such harness")
+		return
+	}
+	f()
 	fmt.Println("REPLAY-END")
 }
 `
 
-func nativeReplay(cf cexFile) replayResult {
-	rr := replayResult{violated: map[string]bool{}, reached: map[string]bool{}}
+// nativeSession is a compiled test binary of the package under test with the harness files,
+// the native intrinsics runtime and a dispatcher test; one per (package, harness dir).
+type nativeSession struct {
+	tmp string
+	bin string
+	err string
+}
+
+var nativeSessions = map[string]*nativeSession{}
+
+func closeNativeSessions() {
+	for _, s := range nativeSessions {
+		os.RemoveAll(s.tmp)
+	}
+	nativeSessions = map[string]*nativeSession{}
+}
+
+func getNativeSession(pkg, harnessDir string) *nativeSession {
+	key := pkg + "|" + harnessDir
+	if s, ok := nativeSessions[key]; ok {
+		return s
+	}
+	s := &nativeSession{}
+	nativeSessions[key] = s
 	repo := repoDir()
 	tmp, err := os.MkdirTemp("", "gosmt-replay-")
 	if err != nil {
-		rr.err = err.Error()
-		return rr
+		s.err = err.Error()
+		return s
 	}
-	defer os.RemoveAll(tmp)
+	s.tmp = tmp
 	for _, f := range []string{"go.mod", "go.sum"} {
 		b, _ := os.ReadFile(filepath.Join(repo, f))
 		os.WriteFile(filepath.Join(tmp, map[string]string{"go.mod": "x.mod", "go.sum": "x.sum"}[f]), b, 0o644)
 	}
-	pkgDir := filepath.Join(repo, cf.Pkg)
-	files, _ := filepath.Glob(filepath.Join(cf.HarnessDir, "*.go"))
+	pkgDir := filepath.Join(repo, pkg)
+	files, _ := filepath.Glob(filepath.Join(harnessDir, "*.go"))
 	repl := map[string]string{}
 	pkgName := ""
+	var table strings.Builder
+	fre := regexp.MustCompile(`(?m)^func (Verif\w+)\(\)`)
 	for _, f := range files {
 		b, _ := os.ReadFile(f)
 		if m := regexp.MustCompile(`(?m)^package\s+(\w+)`).FindSubmatch(b); m != nil {
 			pkgName = string(m[1])
+		}
+		for _, m := range fre.FindAllSubmatch(b, -1) {
+			fmt.Fprintf(&table, "\t%q: %s,\n", string(m[1]), string(m[1]))
 		}
 		repl[filepath.Join(pkgDir, "zz_verif_"+filepath.Base(f))] = f
 	}
@@ -613,18 +652,41 @@ func nativeReplay(cf cexFile) replayResult {
 	os.WriteFile(rt, []byte(fmt.Sprintf(nativeRuntime, pkgName)), 0o644)
 	repl[filepath.Join(pkgDir, "zz_verif_intrinsics.go")] = rt
 	tf := filepath.Join(tmp, "replay_test.go")
-	os.WriteFile(tf, []byte(fmt.Sprintf(nativeTest, pkgName, cf.Harness)), 0o644)
+	os.WriteFile(tf, []byte(fmt.Sprintf(nativeTest, pkgName, table.String())), 0o644)
 	repl[filepath.Join(pkgDir, "zz_verif_replay_test.go")] = tf
 	ov, _ := json.Marshal(map[string]interface{}{"Replace": repl})
 	ovf := filepath.Join(tmp, "overlay.json")
 	os.WriteFile(ovf, ov, 0o644)
-	mf := filepath.Join(tmp, "model.json")
-	mb, _ := json.Marshal(cf.Model)
-	os.WriteFile(mf, mb, 0o644)
-	cmd := exec.Command("go", "test", "-tags=verif", "-overlay="+ovf, "-modfile="+filepath.Join(tmp, "x.mod"),
-		"-run", "^TestVerifReplay$", "-count=1", "-v", "-vet=off", "-timeout", "120s", cf.Pkg)
+	s.bin = filepath.Join(tmp, "replay.test")
+	cmd := exec.Command("go", "test", "-c", "-o", s.bin, "-tags=verif", "-overlay="+ovf, "-modfile="+filepath.Join(tmp, "x.mod"), "-vet=off", pkg)
 	cmd.Dir = repo
-	cmd.Env = append(os.Environ(), "GOFLAGS=-mod=mod", "GOPROXY=off", "GOSUMDB=off", "GOTOOLCHAIN=local", "GOSMT_MODEL="+mf)
+	cmd.Env = append(os.Environ(), "GOFLAGS=-mod=mod", "GOPROXY=off", "GOSUMDB=off", "GOTOOLCHAIN=local")
+	out, err := cmd.CombinedOutput()
+	if err != nil {
+		s.err = "native build failed: " + lastLines(string(out), 15)
+	}
+	return s
+}
+
+func nativeReplay(cf cexFile) replayResult {
+	rr := replayResult{violated: map[string]bool{}, reached: map[string]bool{}}
+	s := getNativeSession(cf.Pkg, cf.HarnessDir)
+	if s.err != "" {
+		rr.err = s.err
+		return rr
+	}
+	mf, err := os.CreateTemp(s.tmp, "model-*.json")
+	if err != nil {
+		rr.err = err.Error()
+		return rr
+	}
+	mb, _ := json.Marshal(cf.Model)
+	mf.Write(mb)
+	mf.Close()
+	defer os.Remove(mf.Name())
+	cmd := exec.Command(s.bin, "-test.run", "^TestVerifReplay$", "-test.v", "-test.timeout", "120s")
+	cmd.Dir = filepath.Join(repoDir(), cf.Pkg)
+	cmd.Env = append(os.Environ(), "GOSMT_MODEL="+mf.Name(), "GOSMT_FUNC="+cf.Harness)
 	out, _ := cmd.CombinedOutput()
 	rr.output = string(out)
 	if !strings.Contains(rr.output, "REPLAY-") {
@@ -729,6 +791,7 @@ func cmdReplay(args []string) int {
 		fmt.Println("NOT REPRODUCED")
 		return 0
 	}
+	defer closeNativeSessions()
 	rr := nativeReplay(cf)
 	fmt.Println(rr.output)
 	if rr.err != "" {
